@@ -91,7 +91,7 @@ NOTES = {
  "C01-w12m1": "C01 stays silent (an append is one step under the serialising scheduler); caught by C19's race engine (data race in sumTree).",
  "C12-w12m2": "C12 stays silent (library level, one goroutine); caught by C19's race engine (data race in price.Multiply).",
  "C01-w13m2": "missed at first: C01 read text tables only. A tenth of its cases now also run --csv with an explicit --digits 0..3 and read the Delta lines; then caught (Delta 0.1 in the CSV report).",
- "C02-w13m2": "NOT CAUGHT: the change needs a journal that never mentions Equity:Equity (the --account filter is resolved before period closing creates that account). Every generated journal opens and uses Equity:Equity as its counter-account, and C02 treats rows of other equity accounts under closing as don't-care; building such journals would have meant a second reference for closing. Recorded as a gap.",
+ "C02-w13m2": "missed at first (recorded as a gap after the thirteenth wave): the change needs a journal that never mentions Equity:Equity (the --account filter is resolved before period closing creates that account), and every generated journal opened and booked on Equity:Equity. 15% of C02's journals now have their counter-account renamed to Equity:Opening after the flags were drawn, so that closing alone creates Equity:Equity; the reference already modelled that row; then caught (wrong-cell on Equity:Equity).",
  "C06-w13m2": "missed at first: no two same-day transactions differed only in their commodity. The generator now adds near-duplicates (same description, accounts and quantities; another commodity, or a @performance list that extends the original's) to 6% of the transactions; then caught (block-order).",
  "C12-w13m2": "missed at first: the zero quote was always the last quote of its day. In half of the zero-price cases it now comes first and valid quotes follow; then caught (valuation-succeeds-without-price).",
  "C14-w13m1": "missed at first: no two same-day transactions had @performance lists of which one is a prefix of the other; the near-duplicates added for C06-w13m2 include them; then caught (panic: index out of range).",
